@@ -42,6 +42,7 @@ type c46pReg struct {
 type c46pSend struct {
 	block uint64
 	typ   string
+	alive bool // the caller's signing context was still alive
 }
 
 type c46pMsg struct {
@@ -51,23 +52,24 @@ type c46pMsg struct {
 }
 
 func (m *c46pMsg) TransportSenderID() net.TransportIdentifier { return nil }
-func (m *c46pMsg) SenderPublicKey() []byte                     { return m.key }
-func (m *c46pMsg) Payload() interface{}                        { return m.payload }
-func (m *c46pMsg) Type() string                                { return m.typ }
-func (m *c46pMsg) Seqno() uint64                               { return 0 }
+func (m *c46pMsg) SenderPublicKey() []byte                    { return m.key }
+func (m *c46pMsg) Payload() interface{}                       { return m.payload }
+func (m *c46pMsg) Type() string                               { return m.typ }
+func (m *c46pMsg) Seqno() uint64                              { return 0 }
 
 // c46pChan is the wallet's broadcast channel: whatever is sent reaches every live handler
 // (the sender's own included); nobody else ever sends.
 type c46pChan struct {
-	env   *c46pEnv
-	regs  []*c46pReg
-	sends []c46pSend
+	caller context.Context
+	env    *c46pEnv
+	regs   []*c46pReg
+	sends  []c46pSend
 }
 
 func (c *c46pChan) Name() string { return "c46-phase" }
 func (c *c46pChan) Send(ctx context.Context, m net.TaggedMarshaler, _ ...net.RetransmissionStrategy) error {
 	vsched.Yield()
-	c.sends = append(c.sends, c46pSend{c.env.now, m.Type()})
+	c.sends = append(c.sends, c46pSend{c.env.now, m.Type(), c.caller != nil && c.caller.Err() == nil})
 	msg := &c46pMsg{payload: m, key: c.env.key, typ: m.Type()}
 	for _, r := range c.regs {
 		if r.ctx.Err() == nil {
@@ -87,11 +89,18 @@ type c46pEnv struct {
 	now  uint64
 	key  []byte
 	stop bool
+	// failBlock: every wait for exactly this block height fails (the waiter for the
+	// action's deadline block cannot be set up: chain client trouble at that call site)
+	failBlock uint64
 }
 
 // waitForBlock: like node.waitForBlockHeight, returns when the block is reached or the
 // context is done.
 func (e *c46pEnv) waitForBlock(ctx context.Context, b uint64) error {
+	if e.failBlock != 0 && b == e.failBlock {
+		vsched.Yield()
+		return fmt.Errorf("block counter failure")
+	}
 	if b > e.now && ctx.Err() == nil {
 		vsched.Block(fmt.Sprintf("block>=%d", b), func() bool { return e.now >= b || ctx.Err() != nil })
 	}
@@ -105,10 +114,16 @@ type c46pScenario struct {
 	// (the action's proposal expiry block minus the safety margin).
 	Deadline uint64 `json:"deadline_offset"`
 	Limit    uint   `json:"attempts_limit"`
+	// FailDeadlineWait: waiting for the caller's deadline block fails whenever it is tried.
+	FailDeadlineWait bool `json:"fail_deadline_wait,omitempty"`
 }
 
 func (sc c46pScenario) String() string {
-	return fmt.Sprintf("phase start=%d deadline=start+%d attempts-limit=%d", sc.Start, sc.Deadline, sc.Limit)
+	s := fmt.Sprintf("phase start=%d deadline=start+%d attempts-limit=%d", sc.Start, sc.Deadline, sc.Limit)
+	if sc.FailDeadlineWait {
+		s += " deadline-wait-fails"
+	}
+	return s
 }
 
 type c46pResult struct {
@@ -148,6 +163,9 @@ func c46pBody(sc c46pScenario, res *c46pResult) func() {
 	return func() {
 		*res = c46pResult{}
 		env := &c46pEnv{now: sc.Start - 2, key: c46pKey}
+		if sc.FailDeadlineWait {
+			env.failBlock = sc.Start + sc.Deadline
+		}
 		ch := &c46pChan{env: env}
 		res.ch = ch
 		end := sc.Start + uint64(sc.Limit*signingAttemptMaximumBlocks()) + 60
@@ -171,6 +189,7 @@ func c46pBody(sc c46pScenario, res *c46pResult) func() {
 		root, cancelRoot := vctx.WithCancel(context.Background())
 		// exactly what walletTransactionExecutor.signTransaction / heartbeatAction do
 		signingCtx, cancelSigningCtx := withCancelOnBlock(root, sc.Start+sc.Deadline, env.waitForBlock)
+		ch.caller = signingCtx
 		sig, _, _, err := executor.sign(signingCtx, big.NewInt(100), sc.Start)
 		res.err, res.returned, res.returnedAt, res.signed = err, true, env.now, sig != nil
 		cancelSigningCtx()
@@ -215,7 +234,10 @@ func c46pEvaluate(r *vrep.R, sc c46pScenario, bound int, s *vsched.Sched, res *c
 	timely := s.Cost() == 0
 	last := uint64(0)
 	for _, sd := range res.ch.sends {
-		if sd.block < sc.Start {
+		// (waits return at once when their context is over, as node.waitForBlockHeight's
+		// do: what a loop still sends on its way out of a cancelled phase is not the
+		// start of a signing phase)
+		if sd.block < sc.Start && sd.alive {
 			fail("early", fmt.Sprintf("a %s message was sent at block %d, before the signing start block %d", sd.typ, sd.block, sc.Start))
 		}
 		if sd.block > last {
@@ -272,7 +294,7 @@ func TestVerifC46Phase(t *testing.T) {
 			if !r.Mine(idx) {
 				continue
 			}
-			sc := c46pScenario{Start: 1000, Deadline: off, Limit: lim}
+			sc := c46pScenario{Start: 1000, Deadline: off, Limit: lim, FailDeadlineWait: off == 3 || off == L+3}
 			if idx == 1 {
 				a := vsched.Replay(nil, opts(0), c46pBody(sc, &res))
 				oa := fmt.Sprint(res.ch.sends, res.returnedAt, res.err)
